@@ -242,6 +242,16 @@ pub fn run_keyed(ctx: &mut Ctx) {
             let (fo, co) = records(&out);
             if f { if fo != fa { ctx.fail("C18", "file-records-changed", "file records changed by the export".into(), replay.clone()); } } else if !fo.is_empty() { ctx.fail("C18", "file-records-not-dropped", "file records present although not requested".into(), replay.clone()); }
             if co.keys().collect::<Vec<_>>() != ca.keys().collect::<Vec<_>>() { ctx.fail("C18", "xorb-hashes-changed", "xorb hashes changed by the export".into(), replay.clone()); }
+            // kept file records are retrievable BY HASH through the exported shard's lookup table
+            if f {
+                let mut pc: BTreeMap<u64, usize> = BTreeMap::new(); for k in fa.keys() { *pc.entry(k[0]).or_insert(0) += 1; }
+                for (h, rec) in fa.iter().filter(|(h, _)| pc[&h[0]] < 8).take(30) {
+                    match oinfo.get_file_reconstruction_info(&mut Cursor::new(&out), h) {
+                        Ok(Some(r)) if &r == rec => {}
+                        other => { ctx.fail("C18", "kept-file-record-not-retrievable", format!("file record {} was requested to be kept (file_info=true, cas_table={c}, chunk_table={k}) but a lookup by hash in the exported shard gives {}", h.hex(), match other { Ok(Some(_)) => "another record".to_string(), Ok(None) => "not found".to_string(), Err(e) => format!("an error: {e}") }), replay.clone()); break; }
+                    }
+                }
+            }
             for (h, x) in &co { let src = &ca[h]; for (a, b) in x.chunks.iter().zip(src.chunks.iter()) {
                 let want = if key == MerkleHash::default() { b.chunk_hash } else { b.chunk_hash.hmac(key) };
                 if a.chunk_hash != want || a.unpacked_segment_bytes != b.unpacked_segment_bytes { ctx.fail("C18", "chunk-not-keyed", "a chunk hash in the exported xorb list is not the keyed form of the original".into(), replay.clone()); break; } } }
